@@ -30,6 +30,9 @@ def make_case(seed, tier):
         if rng.random() < 0.6 else ())
     progcase.swarm_config(rng, case)
     progcase.avoid_known(case, rng)
+    # no overlap windows (as in C10): a stop request overlapping the
+    # handlers of another engine is the F38 family
+    case['config']['overlap'] = 0.0
     state = rng.choice(['SUCCESS', 'ERROR', 'CANCELLED', 'CANCELLED'])
     case['ops'] = [{'op': 'stop', 'state': state, 'message': MSG,
                     'target': rng.choice(['root', 'root', 'sub:0', 'sub:1',
@@ -212,7 +215,13 @@ def evaluate(case, res):
                                   or {}).get('spec') or {}
                             if sp.get('with-items'):
                                 tag += ' with_items_continues_after_cancel'
-                            if sp.get('retry'):
+                            owf = hist.rows[trace.WF].get(old_tasks[0].get(
+                                'workflow_execution_id')) or {}
+                            td_retry = any(
+                                w.get('name') == owf.get('name') and
+                                (w.get('task_defaults') or {}).get('retry')
+                                for w in case['prog']['workflows'])
+                            if sp.get('retry') or td_retry:
                                 tag += ' retry_continues_after_cancel'
                         out.append((
                             'C11.task_created_after_stop',
